@@ -38,8 +38,9 @@ theorem credit_step (ord : List Group → List Group) (vals : List Validator) (s
     rcases hcase with ⟨hs, hsucc⟩ | ⟨hs, hsame⟩
     · obtain ⟨c, hcred, _, hbal, hsup, _⟩ := processSuccessfulClaim_ok hsucc
       subst hs
-      simp only [creditStep, hcred]
-      simp only [creditedOn, Bool.and_eq_true, List.all_eq_true, beq_iff_eq]
+      unfold creditStep
+      rw [if_pos (by decide)]
+      simp only [hcred, creditedOn, Bool.and_eq_true, List.all_eq_true, beq_iff_eq]
       constructor
       · intro k _
         have := hbal k.1 k.2
@@ -53,10 +54,16 @@ theorem credit_step (ord : List Group → List Group) (vals : List Validator) (s
       subst hsame
       simp [creditStep, hne, sameOn]
 
-/-- non-vacuity: a state in which the second claim of two 50/50 validators credits 1000 cusdc to account 4 -/
-example : (deliver id [⟨0, 50, true⟩, ⟨1, 50, true⟩]
-    { BState.init with oracle := ⟨[0, 1], [⟨"15x", .pending, .empty, [(.eth 4 1000 "usdc" 0 2, [0])], [(0, .eth 4 1000 "usdc" 0 2)]⟩], none⟩ }
-    (.claim ⟨1, 1, 5, "x", 4, 1000, "usdc", "x", 2⟩)).1.bank.bal 4 "cusdc" = 1000 := by decide
+/-- two validators of power 50, both whitelisted -/
+def exVals : List Validator := [⟨0, 50, true⟩, ⟨1, 50, true⟩]
+def exState : BState := { BState.init with oracle := ⟨[0, 1], [], none⟩ }
+def exClaim (v recv : Nat) : Msg :=
+  .claim ⟨v, 1, 5, "0x1111111111111111111111111111111111111111", recv, 1000, "usdc", "0x2222222222222222222222222222222222222222", 2⟩
+
+/-- non-vacuity: the second of two agreeing claims credits 1000 cusdc to account 4, the first credits nothing -/
+example : (deliver id exVals exState (exClaim 0 4)).1.bank.bal 4 "cusdc" = 0 ∧
+    (deliver id exVals (deliver id exVals exState (exClaim 0 4)).1 (exClaim 1 4)).1.bank.bal 4 "cusdc" = 1000 ∧
+    (deliver id exVals (deliver id exVals exState (exClaim 0 4)).1 (exClaim 1 4)).2 = .claimed .success := by decide
 
 /-- Credit only on the transition: a claim message whose result is anything but "accepted, SUCCESS" leaves the whole
     bank (balances, supply, accounts) and the peggy-token list untouched. -/
@@ -106,6 +113,40 @@ theorem credit_matches_final (ord : List Group → List Group) (vals : List Vali
       rw [eo, fa]; exact hcred
     · exact (hs rfl).elim
 
+/-- **At most once, as agreed, over whole histories.**  Take any history of messages (claims by any validators
+    about any events, locks, burns, administrative messages) and validator-set changes, from any state.  The
+    credits performed for one prophecy id are either none, or exactly one — and then the prophecy ends SUCCESS
+    and that credit is the credit of its final claim.  (`credit_step` says the bank moves by exactly these credits.) -/
+theorem credited_at_most_once (ord : List Group → List Group) (steps : List Step) (w : World) (id : String) :
+    creditsOf ord w steps id = [] ∨
+    ∃ c, creditsOf ord w steps id = [c] ∧ statusOf (run ord w steps).s.oracle id = .success ∧
+      creditOf (finalOf (run ord w steps).s.oracle id) = some c := by
+  induction steps generalizing w with
+  | nil => left; rfl
+  | cons st rest ih =>
+    have hrun : run ord w (st :: rest) = run ord (stepWorld ord w st) rest := rfl
+    rcases creditFor_cases ord w st id with e | ⟨m, c, hst, hid, hs, hcr, e⟩
+    · rcases ih (stepWorld ord w st) with h | ⟨c, h1, h2, h3⟩
+      · left; simp only [creditsOf]; rw [e, h]; rfl
+      · right; refine ⟨c, ?_, ?_, ?_⟩
+        · simp only [creditsOf]; rw [e, h1]; rfl
+        · rw [hrun]; exact h2
+        · rw [hrun]; exact h3
+    · right
+      have hafter : statusOf (stepWorld ord w st).s.oracle id = .success := by
+        rw [hst]; subst hid; exact (credit_needs_pending hs).2
+      have hnp : statusOf (stepWorld ord w st).s.oracle id ≠ .pending := by rw [hafter]; decide
+      obtain ⟨k1, k2⟩ := run_nonpending_stable ord rest (stepWorld ord w st) id hnp
+      obtain ⟨c1, c2⟩ := statusOf_congr (o' := (run ord (stepWorld ord w st) rest).s.oracle) k1
+      refine ⟨c, ?_, ?_, ?_⟩
+      · simp only [creditsOf]; rw [e, k2]; rfl
+      · rw [hrun, c1]; exact hafter
+      · rw [hrun, c2, hst]; exact hcr
+
+/-- non-vacuity: three claims (two agreeing validators, then a late one) credit exactly once -/
+example : creditsOf id ⟨exVals, exState⟩ [.msg (exClaim 0 4), .msg (exClaim 1 4), .msg (exClaim 0 4), .msg (exClaim 1 4)]
+    "150x1111111111111111111111111111111111111111" = [(4, "cusdc", 1000)] := by decide
+
 /-- Panics and errors are confined by the transaction wrapper: a claim message that fails for whatever reason
     (negative amount, invalid denomination, blocked receiver ⇒ `panic(err)`, unspecified claim type ⇒ error)
     leaves the whole state as it was — in particular the prophecy stays pending *without* that claim. -/
@@ -113,9 +154,7 @@ theorem failed_claim_changes_nothing (ord : List Group → List Group) (vals : L
     (h : (deliver ord vals s m).2 = .failed f) : (deliver ord vals s m).1 = s := deliver_failed h
 
 /-- non-vacuity: the crossing claim names a blocked receiver (module account 1): panic, state unchanged -/
-example : (deliver id [⟨0, 50, true⟩, ⟨1, 50, true⟩]
-    { BState.init with oracle := ⟨[0, 1], [⟨"15x", .pending, .empty, [(.eth 1 1000 "usdc" 0 2, [0])], [(0, .eth 1 1000 "usdc" 0 2)]⟩], none⟩ }
-    (.claim ⟨1, 1, 5, "x", 1, 1000, "usdc", "0x0000000000000000000000000000000000000000", 2⟩)).2 = .failed .panic := by decide
+example : (deliver id exVals (deliver id exVals exState (exClaim 0 1)).1 (exClaim 1 1)).2 = .failed .panic := by decide
 
 /-- After a lock credit of `"c" ++ sym` that token is in the peggy list: `Lock` of it is refused, `Burn` passes the
     peggy-token guard — and the list only grows, so this holds thereafter. -/
@@ -137,7 +176,6 @@ theorem lock_then_only_burnable (ord : List Group → List Group) (vals : List V
     · obtain ⟨c, _, _, _, _, _, _, _, _, _, _, hpeg⟩ := processSuccessfulClaim_ok hsucc
       have hp' := hpeg r a sym t hf
       have hin : s'.peggy.contains (peggedPrefix ++ sym) = true := by
-        simp only
         rw [hp']
         unfold addPeggy
         split
@@ -147,11 +185,10 @@ theorem lock_then_only_burnable (ord : List Group → List Group) (vals : List V
       intro pm hsym
       unfold lock
       by_cases hpa : s'.paused = true
-      · exact ⟨_, by simp [hpa]⟩
+      · exact ⟨.err .paused, by simp [hpa]⟩
       · refine ⟨.err .other, ?_⟩
         have : s'.paused = false := by simpa using hpa
-        simp only at hin
-        simp [this, hsym, hin]
+        simp only [this, hsym, hin, Bool.false_eq_true, if_false, if_true]
     · exact (hs rfl).elim
 
 theorem peggy_only_grows (ord : List Group → List Group) (vals : List Validator) (s : BState) (m : Msg) (tkn : String)
